@@ -1,6 +1,6 @@
 """C15 — included data files decode to the data they contain.  R53 R54 R55 R56 R87."""
 from .. import cfg, util
-from ..core import RuleResult, need
+from ..core import RuleResult, need, AnchorError
 from ..facts import callee, op_local, op_place
 from ..origins import Origins, calls_in
 
@@ -156,13 +156,36 @@ def r55(F):
 def r56(F):
     r = RuleResult("R56", "integers stay integers",
                    "json/yaml: the as_i64 test precedes the float fallback and its Some edge builds Val::Int; toml: Integer -> Int",
-                   floor=3)
+                   floor=5)
     for conv, fname in (("json", "ucglib::convert::json::JsonConverter::convert_json_val"),
                         ("yaml", "ucglib::convert::yaml::YamlConverter::convert_yaml_val")):
         fn = F.fn(fname)
+        # the function itself and the helpers of the convert module it hands numbers to
+        fns = [fn] + [F.fn(callee(t)) for b, t in fn.calls() if callee(t).startswith("ucglib::convert::") and callee(t) in F.fns
+                      and callee(t) != fname and "convert_" not in callee(t).split("::")[-1]]
+        ints = []
+        for f2 in fns:
+            o2 = Origins(f2)
+            for b2, j, pl, rv, m in f2.assigns():
+                if rv["k"] == "agg" and rv.get("adt") == "ucglib::build::ir::Val" and rv.get("variant") == "Int":
+                    labs = o2.at(rv["ops"][0], b2)
+                    via_float = any(l[0] == "cast" and "Float" in str(l[1]) for l in labs) or any(c.endswith("as_f64") for c in calls_in(labs)) \
+                        or any(l[0] == "cast" and len(l) > 2 and str(l[2]).startswith("f") for l in labs)
+                    ints.append((f2, b2, via_float))
+        if not ints:
+            r.inst("%s:int-before-float" % conv, fn.where(), False, "the %s importer never builds a Val::Int: integers are imported as floats" % conv)
+            continue
+        bad = [(f2, b2) for f2, b2, vf in ints if vf]
+        r.inst("%s:int-payload" % conv, (bad[0][0].where(bad[0][1]) if bad else ints[0][0].where(ints[0][1])), not bad,
+               "the Int payload comes from the number's integer view, never through a float" if not bad else
+               "an imported integer is produced from the number's f64 view (float -> int cast): integers above 2^53 change value "
+               "(9007199254740993 -> 9007199254740992)")
         ai = [(b, t) for b, t in fn.calls() if callee(t).endswith("Number::as_i64")]
         af = [b for b, t in fn.calls() if callee(t).endswith("Number::as_f64")]
-        need(ai and af, "as_i64/as_f64 not found in %s" % fname)
+        if not ai:
+            if not bad:
+                raise AnchorError("as_i64 not found in %s and the Int payload's origin was not recognised" % fname)
+            continue
         b, t = ai[0]
         ok = False
         for sb, st in util.enum_switches(fn, t["dest"]["l"]):
